@@ -184,9 +184,38 @@ def run_c09(exe, groups, r, n, dbg=True):
     return viol, reqs_all, cells
 
 
+class Guarded:
+    """a protocol server that is restarted when the process dies (a crash is an observation)"""
+
+    def __init__(self, exe):
+        self.exe = exe
+        self.H = vlib.Server(exe)
+        self.crashes = []
+
+    def ask(self, line):
+        try:
+            return self.H.ask(line)
+        except (RuntimeError, BrokenPipeError, OSError):
+            rc = self.H.p.poll()
+            self.crashes.append((line, rc))
+            try:
+                self.H.close()
+            except Exception:
+                pass
+            self.H = vlib.Server(self.exe)
+            return "err process_died(%s)" % rc
+
+    def close(self):
+        self.H.close()
+
+
+ASSIGN_G = ["assign_copy", "assign_move", "assign_owning", "assign_owning_move", "assign_coeffs"]
+ASSIGN_T = ["assign_tcopy", "assign_tmove", "assign_towning", "assign_tcoeffs"]
+
+
 def run_c10(exe, groups, r, n, dbg=True):
     """same request with owning / Map / Map<const> operands: identical answers, guards intact"""
-    H = vlib.Server(exe)
+    H = Guarded(exe)
     viol, lines, cells = [], [], set()
     ops = list(MASKED.items()) + [(o, ("T", 0)) for o in ("rjac", "ljac", "rjacinv", "ljacinv", "smallAdj", "hat")] + \
           [(o, ("G", 0)) for o in ("adj", "transform")] + [("bracket", ("TT", 0)), ("inner", ("TT", 0))]
@@ -221,6 +250,24 @@ def run_c10(exe, groups, r, n, dbg=True):
                         viol.append(V("C10", group, op, "guard", ["m"], lm, "a write through a mutable view changed memory outside the viewed coefficients"))
                     elif ro != rm:
                         viol.append(V("C10", group, op, "write", ["m"], lm, "mutation through a view differs from mutation of an owning object"))
+                # the assignment family: a view copies into its own buffer and keeps viewing it
+                for op in ASSIGN_G + ASSIGN_T:
+                    args = (X + Y) if op in ASSIGN_G else (t_ + gen.tangent(r, group)[0])
+                    lo, lm = gen.req(dbg, "o", group, op, 0, args), gen.req(dbg, "m", group, op, 0, args)
+                    ro, rm = H.ask(lo), H.ask(lm)
+                    lines += [lo, lm]
+                    cells.add((group, op, "assign"))
+                    k = len(args) // 2
+                    want = "ok " + " ".join(gen.hex_of(x) for x in args[k:])      # destination == source right after
+                    if "guard_zone_overwritten" in rm:
+                        viol.append(V("C10", group, op, "guard", ["m"], lm, "assignment to a view wrote outside the viewed coefficients"))
+                    elif ro != rm:
+                        viol.append(V("C10", group, op, "assign", ["m"], lm, "assignment between views behaves differently from assignment between owning objects (destination buffer not written, or the view re-seated): owning %s… view %s…" % (ro[:60], rm[:60])))
+                    elif not ro.startswith(want):
+                        viol.append(V("C10", group, op, "assign-value", ["o"], lo, "assignment did not copy the source coefficients"))
+        for line, rc in H.crashes:
+            t = line.split()
+            viol.append(V("C10", t[2], t[3], "crash", [t[1], "rc=%s" % rc], line, "the process died on this request (signal/abort %s): view operands must work on any buffer of scalars" % rc))
     finally:
         H.close()
     return viol, lines, cells
